@@ -1735,6 +1735,9 @@ func (env *LEnv) call(ctx context.Context, fun *LVal, args *LVal) *LVal {
 		// builtin returns.
 		prev := env.evalCtx
 		env.evalCtx = ctx
+		// Deferred as well as done inline: a Go panic in fn is recovered by
+		// the enclosing eval, and must not leave ctx on env either.
+		defer func() { env.evalCtx = prev }()
 		val := fn(env, list)
 		env.evalCtx = prev
 		if val == nil {
@@ -1744,8 +1747,15 @@ func (env *LEnv) call(ctx context.Context, fun *LVal, args *LVal) *LVal {
 			env.Runtime.Stack.Top().Terminal = true
 			verifEv(env.Runtime.Stack, "term", 1, 0, "", "builtin")
 			termEnv := val.Native.(*LEnv)
+			// Bridge ctx for the terminal expression only: left in place it
+			// outlives the evaluation (termEnv is the root environment for a
+			// top-level form), and a later context-less Eval or Load in the same
+			// environment would run under a stale, possibly cancelled, context.
+			prevTerm := termEnv.evalCtx
 			termEnv.evalCtx = ctx
-			return termEnv.eval(ctx, val.Cells[0])
+			r := termEnv.eval(ctx, val.Cells[0])
+			termEnv.evalCtx = prevTerm
+			return r
 		}
 		return val
 	}
